@@ -54,7 +54,7 @@ def make_caller(r, driver, c):
         kind = "seq"
     n = 1 if kind.startswith("send") else (1 if kind == "manual" else r.randint(2, 5))
     items = []
-    k = 0
+    k = r.randrange(48)        # any (caller, k) gives a frame unique to the caller; the offset varies the command classes
     for _ in range(n):
         ck = r.choice(kinds) if kind != "manual" else ("dtquery" if driver != "hasseb" else "dttwice")
         items.append(("cmd", simlib.make_command(r, ck, c, k, driver)))
@@ -99,7 +99,16 @@ def run_case(driver, seed, part, i, res, forced=None):
         # start offsets are decisions of the exhaustive walk too
         for spec in callers:
             spec["start"] = picker.pick("start", [0, 0.003, 0.02, 0.06])
-    sim = simlib.Sim(driver, picker, hid_kwargs={"reconnect_interval": 0.5} if loss else None)
+    def answer(width, value, idx, dt):
+        # every bus outcome of a query: silence, a clean answer, colliding answers (framing error)
+        from gateways.sim import is_query
+        if not is_query(width, value, dt):
+            return None
+        ra = rng(seed, "C15", "answer", driver, width, value, i if forced is None else 0)
+        c = ra.random()
+        return None if c < 0.2 else (("ok", ra.getrandbits(8)) if c < 0.7 else ("collision", ra.getrandbits(8)))
+
+    sim = simlib.Sim(driver, picker, answer=answer, hid_kwargs={"reconnect_interval": 0.5} if loss else None)
     outcome = {}
     gens = {}
 
